@@ -8,6 +8,8 @@ import (
 	"math/bits"
 	"path/filepath"
 	"strings"
+
+	"github.com/alicebob/sqlittle/sql"
 )
 
 const (
@@ -58,6 +60,7 @@ type objectCache struct {
 
 type Database struct {
 	journal     string
+	ignoreDesc  bool // schema format < 4
 	dirty       bool // reload header if true
 	l           pager
 	header      *header
@@ -265,6 +268,9 @@ func (db *Database) resolveDirty() error {
 	}
 	db.dirty = false
 	db.header = &newHeader
+	// schema format (1, 2, 3 or 4): only format 4 files store DESC indexes in
+	// descending order
+	db.ignoreDesc = binary.BigEndian.Uint32(buf[44:48]) < 4
 	return nil
 }
 
@@ -490,7 +496,23 @@ func (db *Database) Schema(table string) (*Schema, error) {
 	if err != nil {
 		return nil, err
 	}
-	return newSchema(table, m)
+	s, err := newSchema(table, m)
+	if err != nil {
+		return nil, err
+	}
+	if db.ignoreDesc {
+		// "The DESC keyword is ignored in indexes for formats 1, 2, and 3":
+		// whatever the definitions say, everything is stored ascending.
+		for i := range s.PK {
+			s.PK[i].SortOrder = sql.Asc
+		}
+		for _, ind := range s.Indexes {
+			for i := range ind.Columns {
+				ind.Columns[i].SortOrder = sql.Asc // shared with s.Indexes
+			}
+		}
+	}
+	return s, nil
 }
 
 // Info gives some debugging info about the open database
